@@ -248,6 +248,8 @@ func runC07(cases string, res *Result) {
 		}
 	})
 	c07LongValues(res, eng)
+	c07UnderEngineSettings(res)
+	c07PartialsRegisteredAgain(res)
 	res.Exhaustive = []string{"exhaustive1", "exhaustive2"}
 }
 
